@@ -26,7 +26,7 @@ STREAM = 'repeated-lockstep'
 REP_KINDS = {
     'rep-append': 'append', 'rep-insert': 'insert', 'rep-copy-insert': 'insert', 'rep-pop': 'pop',
     'rep-setitem': 'setitem', 'rep-setslice': 'setslice', 'rep-delitem': 'delitem', 'rep-delslice': 'delslice',
-    'rep-extend': 'extend', 'rep-clear': 'clear',
+    'rep-extend': 'extend', 'rep-clear': 'clear', 'rep-dropmany': 'dropmanypub',
 }
 _KINDS: dict = {}
 
@@ -290,6 +290,8 @@ class Observer:
             tail = _enc_values(_batch(args[0], prepared), ids, store)
         elif m == 'clear':
             tail = ''
+        elif m == 'dropmanypub':
+            tail = ','.join(str(int(i)) for i in args[0]) or '-'
         else:
             raise Skip('unknown-method')
         line = f'{m} {common} {tail}'.rstrip()
@@ -368,5 +370,10 @@ def grid(ctx, observer=None):
             one(text, {'k': 'call', 'kind': 'rep-clear', 'm': 'clear', 'args': [], **base_op})
             for k in range(0, 4):
                 one(text, {'k': 'call', 'kind': 'rep-extend', 'm': 'extend', 'args': [{'t': 'list', 'items': [val(i % 3) for i in range(k)]}], **base_op})
+            # drop_many: every index list of length <= 2 over -n-1..n, plus a few longer ones (repeats, any order)
+            rng_ = list(range(-n - 1, n + 1))
+            lists = [[]] + [[i] for i in rng_] + [[i, j] for i in rng_ for j in rng_] + [[0, 0, 0], list(range(n))[::-1], list(range(-n, 0)), [n - 1, 0, -1, 0]]
+            for idxs in lists:
+                one(text, {'k': 'call', 'kind': 'rep-dropmany', 'm': 'drop_many', 'args': [{'t': 'lit', 'v': idxs}], **base_op})
     if own:
         ob.finish(ctx)
